@@ -114,3 +114,59 @@ def run(ctx):
                     ctx.violation('%s cut at byte %d%s: %s' % (name, k, ' (1-byte segments)' if seg else '', bad),
                                   {'conversation': name, 'cut': k, 'segment': seg, 'events': r['events']},
                                   key={'conversation': name, 'cut': k, 'segment': seg})
+    server_goes_while_client_writes(ctx, C, P)
+
+
+def server_goes_while_client_writes(ctx, C, P):
+    """The server stops in the middle of the CLIENT's burst: it answers nothing more and closes after the n-th play-state frame
+    it has received, while the client still has packets queued.  The client's next write fails (EPIPE), the read that follows
+    hits the end of the stream: the thread must end and an error must be reported -- not a silent exit."""
+    from minecraft.networking.packets import serverbound as sb
+    rng = ctx.rng
+    for trial in range(ctx.scale(24, 200)):
+        nka = rng.randint(1, 3)
+        extra = rng.randint(1, 4)
+        close_at = rng.randint(1, nka + extra - 1) if trial % 4 else 1
+        comp = trial % 3 == 1
+        cfg = {'version': 757, 'script': ([('compress', 16)] if comp else []) + [('success',)] + [('keepalive', 10 + k) for k in range(nka)],
+               'close_on_play_frame': close_at, 'servers': []}
+        events = []
+        with simnet.Net(lambda s: RefServer(s, cfg), read_budget=20000, idle_limit=2) as net:
+            conn = C.Connection('h', 1, username='u', allowed_versions={757},
+                                handle_exception=lambda e, i: events.append(('exc', type(e).__name__)),
+                                handle_exit=lambda: events.append(('exit',)))
+            fired = []
+
+            def on_ka(p):
+                if not fired:
+                    fired.append(1)
+                    for k in range(extra):
+                        conn.write_packet(sb.play.ChatPacket(message='m%d' % k))
+            conn.register_packet_listener(on_ka, P.clientbound.play.KeepAlivePacket)
+            try:
+                conn.connect()
+                net.run_threads()
+            except Exception as e:
+                events.append(('raised', type(e).__name__))
+            stops = [k for _, k in net.stops]
+            terr = [type(e).__name__ for e in net.thread_errors]
+            epipe = any(ev[0] == 'epipe' for ev in net.log)
+            eof_reads = net.eof_reads
+        ctx.case(('e2e-server-goes-while-writing', nka, extra, close_at, comp),
+                 sample={'conversation': 'server goes while the client writes', 'keepalives': nka, 'queued': extra, 'close_at': close_at,
+                         'events': events, 'write_failed': epipe})
+        ctx.count('b.server-goes-while-writing' + ('.epipe' if epipe else ''))
+        bad = None
+        if 'budget' in stops or 'stall' in stops:
+            bad = 'networking thread did not terminate (%s)' % (stops,)
+        elif 'idle' in stops:
+            bad = 'client keeps waiting on a closed stream'
+        elif eof_reads > 3:
+            bad = '%d reads after end of stream' % eof_reads
+        elif not [e for e in events if e[0] in ('exc', 'raised')] and not terr:
+            bad = 'silent exit: no error reported (events %r, a write had failed: %s)' % (events, epipe)
+        if bad:
+            ctx.violation('server closes after receiving play frame #%d of the client\'s burst (%d keep-alive replies + %d queued chat '
+                          'packets%s): %s' % (close_at, nka, extra, ', compression on' if comp else '', bad),
+                          {'keepalives': nka, 'queued': extra, 'close_at': close_at, 'events': events},
+                          key={'kind': 'server-goes-while-writing', 'nka': nka, 'extra': extra, 'close_at': close_at, 'comp': comp})
